@@ -158,6 +158,10 @@ def list_comp(I, st, node):
         st.set_views[o.term.get_id()] = dom
         return o
     ev = vals[0]
+    if ev.ty == "Coro":
+        # [coro_fn(..k..) for k in <set/dict>]: a homogeneous batch of coroutines, one per key (consumed by gather)
+        fi_, argmap_ = ev.term
+        return Val("CoroList", (fi_, argmap_, z3.And(z3.Select(D, k), *conds), [k], it))
     if isinstance(node, ast.GeneratorExp):
         # consumed by min()/max()/sum(): keep the image symbolic
         dom_ = st.deflam([k], z3.And(z3.Select(D, k), *conds)) if conds else D
